@@ -96,4 +96,15 @@ CHECKS = {
   "technique": "Coq proof over R (lra/nra with a real ceiling) + PrimFloat model/implementation correspondence",
   "design_ref": "DESIGN.md §3 C20, notes/C19_C20.md",
  },
+ "C13": {
+  "text": "Coq theorems over an abstract real inner-product space (any convex g with a variational-inequality prox, f with the descent and convexity inequalities, "
+          "proved for 1/2||Ax-y||^2): ISTA quantitative descent for every alpha>0 and monotonicity for alpha*L<=2; O(1/k) rate; FISTA O(1/k^2) with the coded t-sequence and "
+          "momentum coefficient (one-step potential + telescoping); resid=0 => fixed point and global minimiser (accelerated or not); PDHG saddle point <=> fixed point for "
+          "scalar / diagonal / abstract steps, any theta, every gamma branch and along the accelerated schedules; Fejer monotonicity in the skewed pairing (x_k,u_{k+1}) under "
+          "tau*sigma*||A||^2<=1 with summable step lengths. The update steps are one Gallina model run on PrimFloat against every iterate of the implementation.",
+  "note": "Trusted: Coq kernel+vm_compute(PrimFloat); stdlib real-number axioms + functional extensionality as printed per theorem. Not proved (partial): convergence of the "
+          "iterates to the minimiser, O(1/k^2) for accelerated PDHG, Fejer with array-valued steps (oracle only); in-place update of the caller's arrays is checked dynamically.",
+  "technique": "Coq proof over an abstract inner-product space + PrimFloat trajectory correspondence",
+  "design_ref": "DESIGN.md §3 C13, notes/C13.md",
+ },
 }
